@@ -1,5 +1,5 @@
 import Secp.Proofs.ScalarCmp
-import Secp.Proofs.Ladder
+import Secp.Proofs.EvalBits
 /-!
 # `Scalar.Bits` is the binary expansion of the canonical value (C14)
 -/
